@@ -9,33 +9,36 @@ def reverse_dfs(transition_list: list, final_states: list) -> list:
         states_reaching_final: list, the list of states that can reach the final states.
     """
     reversed_transitions = reverse_transition_list(transition_list)
-    states_reaching_final = []
+    visited_states = set()
     for final_state in final_states:
-        states_reaching_final = reverse_dfs_recursive(final_state, reversed_transitions, states_reaching_final)
+        reverse_dfs_from(final_state, reversed_transitions, visited_states)
 
-    states_reaching_final = [state for state in states_reaching_final if state not in final_states]
+    states_reaching_final = [state for state in visited_states if state not in final_states]
     states_reaching_final.sort()
     return states_reaching_final
 
 
-def reverse_dfs_recursive(state: int, reversed_transitions: dict, reaching_states: list) -> list:
+def reverse_dfs_from(state: int, reversed_transitions: dict, visited_states: set) -> None:
     """
         Input:
             state: int, the state to start the reverse dfs
             reversed_transitions: dict, the reversed transition matrix
-            reaching_states: list, the list of states that reach the input state
-                                (or a final state) the list is here to not
-                                duplicate the states that are already in the list.
-        Output:
-            rec_reaching_states: the list of states that reach the input state (or a final state)
+            visited_states: set, the states already known to reach a final state;
+                                every state that reaches the input state is added to it,
+                                each state is expanded only once.
+        The search keeps its own stack, so its depth is not limited by the
+        interpreter's recursion limit.
     """
-    rec_reaching_states = reaching_states.copy()
-    rec_reaching_states.append(state)
-    for next_state in reversed_transitions[state]:
-        if next_state not in reaching_states:
-            rec_reaching_states = reverse_dfs_recursive(
-                next_state, reversed_transitions, rec_reaching_states)
-    return rec_reaching_states
+    if state in visited_states:
+        return
+    visited_states.add(state)
+    pending_states = [state]
+    while pending_states:
+        current_state = pending_states.pop()
+        for previous_state in reversed_transitions[current_state]:
+            if previous_state not in visited_states:
+                visited_states.add(previous_state)
+                pending_states.append(previous_state)
 
 
 def reverse_transition_list(transition_list: list) -> dict:
